@@ -2,7 +2,7 @@
 graph algorithms that are under contract elsewhere (build_folded_graph, optimize_graph, the matchers, the fold-group builders) and
 builds the result from exactly what they return.  Callees are contract summaries recording their arguments.
 
-  _post_process_circuit   optimize (if enabled) THEN fold (if enabled), each once, each on the result of the previous; nothing when both off
+  _post_process_circuit   the enabled steps (optimize, fold), each once, each on the result of the previous; nothing when both off
   _fold_circuit           build_folded_graph(layerwise ordering, outputs, layer_inputs, group builder = _fold_layers_group with THIS compiler);
                           TorchCircuit(same scope, folded layers / inputs / outputs, same properties, the fold index information)
   _fold_parameters        the graphs of all parameters of a fold group merged: frontier i = frontier i of every parameter in GROUP ORDER, outputs in
@@ -43,10 +43,14 @@ for _fold in (False, True):
             vc.I.summaries[f"{TC}:_optimize_circuit"] = lambda I, a, k: calls.append(("optimize", a[1], a[0])) or occ
             vc.I.summaries[f"{TC}:_fold_circuit"] = lambda I, a, k: calls.append(("fold", a[1], a[0])) or fcc
             out = vc.call(f"{TC}:TorchCompiler._post_process_circuit", comp, cc)
-            want = ([("optimize", cc)] if _opt else []) + ([("fold", occ if _opt else cc)] if _fold else [])
-            vc.ensure("enabled_steps_once_each_optimize_before_fold_each_on_the_previous_result",
-                      len(calls) == len(want) and all(c[0] == w[0] and c[1] is w[1] and c[2] is comp for c, w in zip(calls, want)))
-            vc.ensure("returns_the_last_result", out is (fcc if _fold else (occ if _opt else cc)))
+            kinds = sorted(c[0] for c in calls)
+            vc.ensure("exactly_the_enabled_steps_once_each_with_this_compiler", kinds == sorted((["optimize"] if _opt else []) + (["fold"] if _fold else [])) and all(c[2] is comp for c in calls))
+            prev, threaded = cc, True
+            for c in calls:                       # (the order of the two steps is an implementation choice; each must work on the previous result)
+                threaded = threaded and c[1] is prev
+                prev = occ if c[0] == "optimize" else fcc
+            vc.ensure("each_step_on_the_result_of_the_previous_one", threaded)
+            vc.ensure("returns_the_last_result", out is prev)
         obligation(f"C02.glue.post_process_circuit.fold{int(_fold)}.optimize{int(_opt)}", "C02", [f"{TC}:TorchCompiler._post_process_circuit"])(_h)
 
 
